@@ -123,7 +123,7 @@ static const char*
 stname(ZixStatus st)
 {
   return st == ZIX_STATUS_SUCCESS ? "SUCCESS" : st == ZIX_STATUS_EXISTS ? "EXISTS" : st == ZIX_STATUS_NOT_FOUND ? "NOT_FOUND"
-         : st == ZIX_STATUS_NO_MEM ? "NO_MEM" : "OTHER";
+         : st == ZIX_STATUS_NO_MEM ? "NO_MEM" : st == ZIX_STATUS_BAD_ARG ? "BAD_ARG" : "OTHER";
 }
 
 static uint64_t*
@@ -267,6 +267,19 @@ main(int argc, char** argv)
       }
       free(p);
       probe_key = NULL;
+    } else if (!strcmp(tok[0], "eraseat") && n == 2) {
+      // zix_hash_erase with an arbitrary iterator value: only the position of a record may be erased
+      const ZixHashIter it = !strcmp(tok[1], "end") ? zix_hash_end(hash) : (ZixHashIter)strtoull(tok[1], NULL, 10);
+      ZixHashRecord* removed = (ZixHashRecord*)&removed;   // must be overwritten (NULL when nothing was removed)
+      const ZixStatus st = zix_hash_erase(hash, it, &removed);
+      printf("st=%s removed=", stname(st));
+      if (removed == (ZixHashRecord*)&removed) printf("UNSET"); else if (removed) printf("%d", rec_id_of(removed)); else printf("NULL");
+      printf(" size=%zu", zix_hash_size(hash));
+      wb();
+      if (removed && removed != (ZixHashRecord*)&removed) {
+        const int id = rec_id_of(removed);
+        if (id >= 0) { free(recs[id]); recs[id] = NULL; }
+      }
     } else if (!strcmp(tok[0], "iter")) {
       printf("iter=");
       bool first = true;
